@@ -151,6 +151,7 @@ pub fn check_case(p: &Prog, model_line: &str, report: &mut Report, _prop: &str) 
         match real_by_id.get(id) {
             Some(atoms) => {
                 if !includes(atoms, rt) {
+                    report.count(&format!("oracle_fail_class_{}", class.unwrap_or("none")));
                     report.oracle_failure(json!({
                         "input": input, "class": class,
                         "what": format!("probe {id} reached with a value of type {rt}, inferred type {} does not include it", atoms.join("|")),
